@@ -357,6 +357,12 @@ inductive Op
   | prop (p : Proposal)
   | relayer (p : RelayerProposal)
   | update (u : Update)
+  /-- the chain is exported and re-imported (ExportGenesis → JSON → Validate → emptied store → InitGenesis):
+      the identity on everything this property talks about -/
+  | restart
+  /-- an execution on a context that is dropped (gov's dry run at submission, Simulate / CheckTx, a failed
+      multi-message tx): whatever the operation would have done, nothing is kept -/
+  | dry (o : Op)
   deriving Repr
 
 def step (s : St) : Op → St × Res
@@ -364,6 +370,14 @@ def step (s : St) : Op → St × Res
   | .prop p => govExec s p
   | .relayer p => relayerExec s p
   | .update u => txExec s u
+  | .restart => (s, .ok)
+  | .dry _ => (s, .ok)
+
+/-- the client an operation is about (its client store is the only one it may touch) -/
+def target : Op → Option Name
+  | .prop p => some p.name
+  | .update u => some u.name
+  | _ => none
 
 def run (s : St) : List Op → St × List Res
   | [] => (s, [])
